@@ -2,18 +2,25 @@ import PngVerif.Proofs.Encoder
 /-!
 # C12 — Everything the encoder emits is a specification-conformant PNG/APNG
 
-Model: `Model/Encoder.lean` (implementation-shaped `Writer`, `ChunkWriter`, `StreamWriter`; sink and
-compressors abstract).  Validator: `Model/Validator.lean` (`validPng`; its sequencing part is
-`skeletonOfChunks`, parametrised by the rule `imgOk` for the concatenated payload of an image).
+Model: `Model/Encoder.lean` (implementation-shaped `Encoder::with_info`, `Writer`, `ChunkWriter`,
+`StreamWriter`; sink and compressors abstract).  Validator: `Model/Validator.lean` (`validPng`; its
+sequencing part is `skeletonOfChunks`, parametrised by the rule `imgOk` for the concatenated payload
+of an image).
 
 What is proved here, for ALL configurations / operation sequences / payloads in the stated domains:
 
-* `C12_writer_partial`: the whole-image API (`write_image_data`, frame setters, raw and text chunks,
-  `finish` or drop) — the chunks the sink holds at the end satisfy every sequencing rule of the
-  validator (IHDR first and once, PLTE before IDAT, acTL before IDAT, one fcTL per frame, IDAT only
-  for the first image and consecutive, fdAT afterwards, sequence numbers 0,1,2,… without gaps over
-  fcTL and fdAT, frame rectangles inside the canvas, first frame = canvas, declared number of fcTL,
-  one IEND, last, empty), with the image rule applied to every image's concatenated payload.
+* `C12_writer` — the FULL statement for the whole-image API (`write_image_data`, frame setters at any
+  time with any arguments, raw private ancillary chunks and text chunks, `finish` or drop): for every
+  configuration an `Encoder` can hold (`Cfg.Accepted`: whatever `Encoder::with_info` lets through, or
+  `Encoder::new` + `set_animated`) and every operation sequence that supplies exactly the declared
+  images, the chunks the sink holds at the end satisfy every sequencing rule of the validator (IHDR
+  first and once, PLTE before IDAT, acTL before IDAT, one fcTL per frame, IDAT only for the first
+  image and consecutive, fdAT afterwards, sequence numbers 0,1,2,… without gaps over fcTL and fdAT,
+  frame rectangles inside the canvas, first frame = canvas, declared number of fcTL, one IEND, last,
+  empty), with the image rule applied to every image's concatenated payload.  (Before the repairs
+  f1da483 "with_info validates the frame control" and 92ed98c "the first image covers the canvas" this
+  was `C12_writer_partial` with two extra hypotheses; the counterexamples
+  `C12_writer_counterexample_with_info` / `…_first_image_subframe` are gone.)
 * `C12_writer_payload`: the image rule of the specification (one zlib stream inflating to exactly
   `height × (1 + row bytes)` with filter bytes ≤ 4) holds for every back-end of the form "filter each
   row somehow, then compress" whose compressor the inflater inverts — via `Png.C03.scanlines_roundtrip`'s
@@ -21,9 +28,7 @@ What is proved here, for ALL configurations / operation sequences / payloads in 
 * `C12_stream_partial`: the stream writer on a still picture, every buffer size ≥ 1, every partition of
   the data, every interleaving of flushes: same skeleton as `write_image_data`, payload = the
   compressor's output.
-* The full statement is FALSE for the code as it is: `C12_writer_counterexample_with_info` (N3),
-  `C12_writer_counterexample_first_image_subframe` (N5), and for the stream writer
-  `C12_stream_animated_counterexample` (D13), `C12_stream_indexed_counterexample` (N6),
+* The full statement is still FALSE for the stream writer: `C12_stream_animated_counterexample` (D13),
   `C12_stream_abandoned_counterexample` (N10).
 
 Not proved in Lean (tied by the harness instead): `parseStrict (fileBytes chunks) = chunks` (byte
@@ -33,17 +38,13 @@ output, and the equality of `specImgOk` with the executable `realImgOk`.
 namespace Png.C12
 open Png Png.Val Png.Enc
 
-/-- The property at full strength for the whole-image API: every configuration `with_info` accepts,
-    every operation sequence whose calls all succeed and that supplies exactly the declared images. -/
-def C12_writer_statement : Prop :=
-  ∀ (E : Codec) (c : Cfg) (ops : List Op) (fin : Final),
-    Codec.Ok anyImg E c.color c.depth → SuppliesDeclaredImagesLoose E c ops →
-    runSkeletonOk c (runWriter E c {} ops fin).state = true
-
-/-- **C12 for `Writer` (partial: configurations as `Encoder::new` + `set_animated` build them, frame
-    rectangle setters only after the first image).**  Nothing fails, nothing panics, and the sink's
-    chunks are `IHDR :: rest` with `rest` accepted by the sequencing automaton under the image rule. -/
-theorem C12_writer_partial (imgOk : ImgRule) (E : Codec) (c : Cfg) (hw : c.WellFormed)
+/-- **C12 for `Writer`: the full statement for the whole-image API.**  `c.WellFormed`: field types in
+    range, a configuration an `Encoder` can hold, legal pass-through payloads (palette bytes, text chunk
+    types); `SuppliesDeclaredImages`: `write_header` succeeds, arguments in their types' ranges, raw
+    chunks are private ancillary ones, and the number of successful image writes is the declared one.
+    Nothing fails at the end, nothing panics, and the sink's chunks are `IHDR :: rest` with `rest`
+    accepted by the sequencing automaton under the image rule. -/
+theorem C12_writer (imgOk : ImgRule) (E : Codec) (c : Cfg) (hw : c.WellFormed)
     (hE : Codec.Ok imgOk E c.color c.depth) (ops : List Op) (fin : Final)
     (hdom : SuppliesDeclaredImages E c ops) :
     (runWriter E c {} ops fin).header = .ok ∧
@@ -52,6 +53,14 @@ theorem C12_writer_partial (imgOk : ImgRule) (E : Codec) (c : Cfg) (hw : c.WellF
     ∃ rest, (runWriter E c {} ops fin).state.sink.chunks = mkIhdr c :: rest ∧
       skeletonOfChunks imgOk c.width c.height c.color rest = .ok () :=
   writer_skeleton_valid imgOk E c hw hE ops fin hdom
+
+/-- what `Encoder::with_info` guarantees about a configuration it lets through, and what it does to one
+    it changes: the sequence number is 0 and the frame is non-empty and inside a non-empty canvas -/
+theorem C12_with_info_guarantee {c : Cfg} (h : c.Accepted) :
+    (c.actl = none ↔ c.fctl = none) ∧ (∀ n p, c.actl = some (n, p) → 0 < n) ∧
+    ∀ f, c.fctl = some f → f.seq = 0 ∧
+      (0 < c.width → 0 < c.height → 0 < f.w ∧ 0 < f.h ∧ f.x + f.w ≤ c.width ∧ f.y + f.h ≤ c.height) :=
+  accepted_spec h
 
 /-- the zlib payload part: any filter choice, any compressor inverted by the inflater -/
 theorem C12_writer_payload (compress : Bytes → Bytes) (inflate : Bytes → Option Bytes)
@@ -69,21 +78,6 @@ theorem C12_writer_conformant (compress : Bytes → Bytes) (inflate : Bytes → 
       skeletonOfChunks (specImgOk inflate c.color c.depth) c.width c.height c.color rest = .ok () :=
   (writer_skeleton_valid _ _ c hw (scanCodec_ok compress inflate choose c.color c.depth hic hnil) ops fin hdom).2.2.2
 
-/-- N3: `Encoder::with_info` keeps the sequence number found in `Info::frame_control` -/
-theorem C12_writer_counterexample_with_info : ¬ C12_writer_statement := by
-  intro h
-  have := h toyCodec cfgSeq5 [.image [7]] .finish (toyCodec_ok _ _) runSeq5_facts.1
-  rw [show runWriter toyCodec cfgSeq5 {} [.image [7]] .finish = runSeq5 from rfl, runSeq5_facts.2.2] at this
-  cases this
-
-/-- N5: a frame setter used before the first image makes the IDAT image a sub-frame -/
-theorem C12_writer_counterexample_first_image_subframe : ¬ C12_writer_statement := by
-  intro h
-  have := h toyCodec cfgAnim22 [.setDim 1 1, .image [7]] .finish (toyCodec_ok _ _) runSubframe_facts.1
-  rw [show runWriter toyCodec cfgAnim22 {} [.setDim 1 1, .image [7]] .finish = runSubframe from rfl,
-    runSubframe_facts.2.2.2] at this
-  cases this
-
 /-- **C12 for `StreamWriter` on a still picture (partial: no animation).**  `write_header`, one
     `stream_writer_with_size(size ≥ 1)` session that writes exactly the image in pieces of ANY sizes with
     any `flush` calls and (refused) setter calls in between, ended by `finish()` or by a drop, then the
@@ -92,7 +86,8 @@ theorem C12_writer_counterexample_first_image_subframe : ¬ C12_writer_statement
     fcTL/fdAT, no sequence numbers — the same skeleton as `write_image_data`) followed by IEND; the
     IDAT payloads concatenate to everything the streaming compressor produced up to and including
     its `finish` — nothing lost, duplicated or reordered by `ChunkWriter` and flate2's output buffer —
-    and the skeleton is valid whenever that zlib stream satisfies the image rule. -/
+    and the skeleton is valid whenever that zlib stream satisfies the image rule.  (`hpal`: an indexed
+    image has a palette — otherwise `StreamWriter::new` refuses with `NoPalette`, repair 90b6476.) -/
 theorem C12_stream_partial (imgOk : ImgRule) (E : Codec) (Z : ZCodec) (c : Cfg) (hw : c.WellFormed)
     (hstill : c.actl = none) (hpal : c.color = 3 → c.palette.isSome = true)
     (hh : (writeHeader c {}).2 = .ok) (size : Nat) (hs : 0 < size) (ops : List SOp)
@@ -129,17 +124,13 @@ theorem C12_stream_animated_counterexample :
     runD13_facts.2.2.2] at this
   cases this
 
-/-- N6: the stream writer emits an indexed image without PLTE -/
-theorem C12_stream_indexed_counterexample :
-    runN6.final = [.ok, .ok, .ok] ∧ runSkeletonOk cfgIndexed runN6.state = false :=
-  ⟨runN6_facts.1, runN6_facts.2.2⟩
-
 /-- N10: a stream writer that is opened and dropped still emits an IDAT chunk -/
 theorem C12_stream_abandoned_counterexample :
     runN10.final = [.ok] ∧ runN10.state.sink.chunks.map (·.ty) = [tyIHDR, tyIDAT, tyIDAT, tyIEND] :=
   ⟨runN10_facts.2.1, runN10_facts.2.2⟩
 
-/-! non-vacuity: the hypotheses of the partial theorem hold on non-trivial values -/
+/-! non-vacuity: the hypotheses hold on non-trivial values; the repaired behaviour on the former
+    counterexamples -/
 set_option maxRecDepth 100000 in
 example : (cfgAnim 2).WellFormed ∧
     SuppliesDeclaredImages toyCodec (cfgAnim 2) [.setDelay 3 4, .image [7], .chunk 1886541428 [1], .setBlend 1, .image [9]] := by
@@ -147,6 +138,21 @@ example : (cfgAnim 2).WellFormed ∧
 set_option maxRecDepth 100000 in
 example : SuppliesDeclaredImages toyCodec { cfgAnim22 with actl := some (2, 0), sepDefImg := true }
     [.image [1, 2, 3, 4], .image [1, 2, 3, 4], .setDim 1 1, .setPos 1 1, .image [9]] := by decide
+/-- a frame setter BEFORE the first image is inside the domain now: the sub-frame image is refused
+    (`OutOfBounds`), the full-canvas one accepted, the output valid -/
+example : cfgAnim22.WellFormed ∧ runSubframe.results = [.ok, .err .outOfBounds, .ok, .ok] ∧
+    runSubframe.final = some .ok ∧ runSkeletonOk cfgAnim22 runSubframe.state = true := runSubframe_facts
+set_option maxRecDepth 100000 in
+example : SuppliesDeclaredImages toyCodec cfgAnim22 [.setDim 1 1, .image [7], .resetDim, .image [1, 2, 3, 4]] := by decide
+-- a frame control inside the canvas but not covering it, accepted by `with_info`: in the domain
+set_option maxRecDepth 100000 in
+example : let c : Cfg := { width := 2, height := 2, actl := some (2, 0), fctl := some { w := 1, h := 1, x := 1 } }
+    c.WellFormed ∧ SuppliesDeclaredImages toyCodec c [.image [7], .resetPos, .resetDim, .image [1, 2, 3, 4], .image [4, 3, 2, 1]] := by
+  decide
+/-- `with_info` on the former counterexample configurations -/
+example : withInfo cfgSeq5 = .ok { cfgSeq5 with fctl := some { w := 1, h := 1 } } ∧
+    withInfo cfgOff = .error .outOfBounds ∧ withInfo cfgW0 = .error .zeroWidth :=
+  ⟨withInfo_facts.1, withInfo_facts.2.1, withInfo_facts.2.2.1⟩
 set_option maxRecDepth 100000 in
 example : let c : Cfg := { width := 2, height := 2 }
     c.WellFormed ∧ (writeHeader c {}).2 = .ok ∧ totalWritten [.write [1], .flush, .write [2, 3, 4]] = 4 ∧
